@@ -565,9 +565,8 @@ def r_simdate(E):
     # (the first and last hours of a series gathered in a small record read as the expressions they are built from)
     try:
         from ..astutil import expand_records as _xr_sd
-        from .units import module_record_classes as _mrc_sd
-        _r_sd, _t_sd = pm.module_tree(MU)
-        fn = _xr_sd(fn, pm.helper_finder("ModelingUpdate"), pm.any_helper_finder(rel), _mrc_sd(_t_sd))
+        from .units import package_record_classes as _prc_sd
+        fn = _xr_sd(fn, pm.helper_finder("ModelingUpdate"), pm.any_helper_finder(rel), _prc_sd(pm), pm.unique_property_finder())
     except Exception:
         fn = fn_as_written
     res.instances += 1
